@@ -392,6 +392,22 @@ func runC03(r *Report, rng *rand.Rand, thorough bool) {
 				Cfg: codegen.Configuration{Generate: fwGenerate(fw, codegen.GenerateOptions{Models: true, Client: true})}})
 		}
 	}
+	// a fixed set, whatever the seed: one route for each of the nine methods, each with a variable followed by further
+	// segments (so that every run has a route of every method, and an interior variable for the empty-segment probes)
+	{
+		var rs []rroute
+		for i, m := range routeMethods {
+			rs = append(rs, rroute{m, []rseg{{lit: "m" + m}, {v: "owner_id1"}, {lit: "things"}, {v: "name3"}}, fmt.Sprintf("opFixed%d", i)})
+		}
+		// and a literal sibling of a templated route whose operation id sorts AFTER the templated one's
+		rs = append(rs, rroute{"get", []rseg{{lit: "mget"}, {v: "owner_id1"}, {lit: "things"}, {lit: "special"}}, "opFixedZLiteral"})
+		spec := routeSpec(rng, rs)
+		sets = append(sets, setInfo{rs, spec, false})
+		for _, fw := range Frameworks {
+			pkgs = append(pkgs, LabPkg{Name: fmt.Sprintf("c03_s%d_%s", len(sets)-1, fw), Spec: spec, FW: fw,
+				Cfg: codegen.Configuration{Generate: fwGenerate(fw, codegen.GenerateOptions{Models: true, Client: true})}})
+		}
+	}
 	lab, err := BuildLab(labRoot, "c03", pkgs)
 	if err != nil {
 		r.Violate("lab_build_failed", err.Error(), nil)
@@ -671,7 +687,9 @@ func runC03(r *Report, rng *rand.Rand, thorough bool) {
 		// static sibling: third-party behaviour, recorded as a known finding and kept out of the
 		// correspondence (the model is the dispatch the statement requires)
 		echoQuirk := false
-		if m.fw == "echo" && want == nil && len(handlers) == 1 {
+		if m.fw == "echo" && len(handlers) == 1 && (want == nil || handlers[0].Name != opName(want.op)) {
+			// (also when the request does match another operation: the route with the static prefix and a trailing variable
+			// takes it first and swallows the remaining segments)
 			for _, rt := range set.rs {
 				if opName(rt.op) == handlers[0].Name && len(rt.tmpl) > 0 && rt.tmpl[len(rt.tmpl)-1].v != "" && strings.Contains(pathArg(handlers[0], rt.tmpl[len(rt.tmpl)-1].v), "/") {
 					echoQuirk = true
@@ -679,7 +697,7 @@ func runC03(r *Report, rng *rand.Rand, thorough bool) {
 			}
 		}
 		if echoQuirk {
-			r.Violate("echo_trailing_variable_swallows_extra_segments", fmt.Sprintf("echo %s /%s matches no operation but handler %s ran with the extra segments inside its last path variable", m.method, strings.Join(m.segs, "/"), handlers[0].Name), replay)
+			r.Violate("echo_trailing_variable_swallows_extra_segments", fmt.Sprintf("echo %s /%s: handler %s ran with the extra segments inside its last path variable (the request matches %s)", m.method, strings.Join(m.segs, "/"), handlers[0].Name, map[bool]string{true: "no operation", false: "another operation"}[want == nil]), replay)
 			continue
 		}
 		// iris's trie does not go back from a static child to a variable sibling: when the request path is a
@@ -765,7 +783,7 @@ func runC03(r *Report, rng *rand.Rand, thorough bool) {
 		}
 	}
 	dcases.WriteTo(r)
-	r.Rule = "function level: random path templates through SwaggerUriTo{Echo,Chi,Gin,Gorilla,StdHttp,Fiber,Iris}Uri, OrderedParamsFromUri and SortParamsByPath (permuted, missing, extra and renamed declarations) vs the model; generated routers: random route sets (shared prefixes, static/templated siblings, 0-4 variables, path-level / operation-level / overridden parameter declarations in shuffled order) x 7 frameworks x with/without base URL (constant, a prefix of a document path, one with a path variable of its own in the router's syntax) x strict/non-strict x the generated entry points (options value; plain form; the caller's own router, with and without base URL, served itself), requests = matching paths with random values (alphanumeric; one in six with + . ~ - _ = ;), extra/missing segment, other method, value equal to a sibling literal, missing base prefix; one fixed set of paths differing in a final slash plus the root path (/, /pets, /pets/, /pets/{id}); non-trivial = a near-miss or sibling probe"
+	r.Rule = "function level: random path templates through SwaggerUriTo{Echo,Chi,Gin,Gorilla,StdHttp,Fiber,Iris}Uri, OrderedParamsFromUri and SortParamsByPath (permuted, missing, extra and renamed declarations) vs the model; generated routers: random route sets (shared prefixes, static/templated siblings, 0-4 variables, path-level / operation-level / overridden parameter declarations in shuffled order) x 7 frameworks x with/without base URL (constant, a prefix of a document path, one with a path variable of its own in the router's syntax) x strict/non-strict x the generated entry points (options value; plain form; the caller's own router, with and without base URL, served itself), requests = matching paths with random values (alphanumeric; one in six with + . ~ - _ = ;), extra/missing segment, other method, value equal to a sibling literal, missing base prefix; one fixed set with a route of every one of the nine methods, each with an interior variable; one fixed set of paths differing in a final slash plus the root path (/, /pets, /pets/, /pets/{id}); non-trivial = a near-miss or sibling probe"
 }
 
 func handlerNames(hs []LabEvent) []string {
